@@ -3,6 +3,7 @@ package main
 import (
 	"fmt"
 	"go/token"
+	"go/types"
 
 	"golang.org/x/tools/go/ssa"
 )
@@ -50,12 +51,18 @@ type chainFact struct {
 // up resolves a value that lives in frame `level` of the chain to the outermost frame it can be traced to:
 // parameters are replaced by the arguments of the chain's own call, free variables by their bindings.
 func (c callChain) up(v ssa.Value, level int) ssa.Value {
+	v, _ = c.upLevel(v, level)
+	return v
+}
+
+// upLevel is up that also reports the frame the resulting value lives in.
+func (c callChain) upLevel(v ssa.Value, level int) (ssa.Value, int) {
 	for i := 0; i < 16; i++ {
 		v = resolve(v)
 		switch x := v.(type) {
 		case *ssa.Parameter:
 			if level == 0 || x.Parent() != c.fns[level] {
-				return v
+				return v, level
 			}
 			call := c.calls[level-1]
 			idx := paramIndex(x)
@@ -64,49 +71,49 @@ func (c callChain) up(v ssa.Value, level int) ssa.Value {
 				// dynamic call of a closure: arguments map to the closure's parameters directly
 			}
 			if idx >= len(args) {
-				return v
+				return v, level
 			}
 			v, level = args[idx], level-1
 		case *ssa.UnOp:
 			if x.Op != token.MUL {
-				return v
+				return v, level
 			}
 			fv, ok := x.X.(*ssa.FreeVar)
 			if !ok || gp == nil {
-				return v
+				return v, level
 			}
 			bs := gp.freeVarBindings(fv)
 			if len(bs) != 1 {
-				return v
+				return v, level
 			}
 			nv, ok := uniqueCellValue(gp, bs[0])
 			if !ok {
-				return v
+				return v, level
 			}
 			// the binding lives in the closure's parent, which is the frame where the closure was created
 			lv := c.levelOf(fv.Parent().Parent(), level)
 			if lv < 0 {
-				return nv
+				return nv, level
 			}
 			v, level = nv, lv
 		case *ssa.FreeVar:
 			if gp == nil {
-				return v
+				return v, level
 			}
 			bs := gp.freeVarBindings(x)
 			if len(bs) != 1 {
-				return v
+				return v, level
 			}
 			lv := c.levelOf(x.Parent().Parent(), level)
 			if lv < 0 {
-				return bs[0]
+				return bs[0], level
 			}
 			v, level = bs[0], lv
 		default:
-			return v
+			return v, level
 		}
 	}
-	return v
+	return v, level
 }
 
 func (c callChain) levelOf(f *ssa.Function, below int) int {
@@ -179,4 +186,99 @@ func enumerateChains(p *Prog, root *ssa.Function, isTarget func(ssa.Instruction)
 
 func (c callChain) describe(p *Prog) string {
 	return fmt.Sprintf("%s @ %s", c.String(), p.pos(c.target.Pos()))
+}
+
+// structCellField: v is a load of field fld of a local struct variable. It returns the variable's cell and the field.
+// A struct parameter that was spilled into a local (`*t0 = e`) is followed to the caller's argument when that
+// argument is itself a load of a local struct variable of the calling frame (struct passed by value down the chain).
+func (c callChain) structCellField(v ssa.Value, level int) (*ssa.Alloc, *types.Var, bool) {
+	for i := 0; i < 8; i++ {
+		ld, ok := strip(v).(*ssa.UnOp)
+		if !ok || ld.Op != token.MUL {
+			return nil, nil, false
+		}
+		fa, ok := ld.X.(*ssa.FieldAddr)
+		if !ok {
+			return nil, nil, false
+		}
+		cell, ok := fa.X.(*ssa.Alloc)
+		if !ok {
+			return nil, nil, false
+		}
+		if _, isStruct := cell.Type().(*types.Pointer).Elem().Underlying().(*types.Struct); !isStruct {
+			return nil, nil, false
+		}
+		// whole-struct stores into the cell
+		var whole []*ssa.Store
+		for _, ref := range *cell.Referrers() {
+			if st, ok := ref.(*ssa.Store); ok && st.Addr == ssa.Value(cell) {
+				whole = append(whole, st)
+			}
+		}
+		fld := fieldOf(fa)
+		if len(whole) == 0 {
+			return cell, fld, true
+		}
+		if len(whole) != 1 {
+			return nil, nil, false
+		}
+		prm, ok := whole[0].Val.(*ssa.Parameter)
+		if !ok || level == 0 || prm.Parent() != c.fns[level] {
+			return nil, nil, false
+		}
+		args := c.calls[level-1].Common().Args
+		idx := paramIndex(prm)
+		if idx >= len(args) {
+			return nil, nil, false
+		}
+		// the argument: a load of the caller's struct variable
+		al, ok := strip(args[idx]).(*ssa.UnOp)
+		if !ok || al.Op != token.MUL {
+			return nil, nil, false
+		}
+		pc, ok := al.X.(*ssa.Alloc)
+		if !ok {
+			return nil, nil, false
+		}
+		nwhole := 0
+		for _, ref := range *pc.Referrers() {
+			if st, ok := ref.(*ssa.Store); ok && st.Addr == ssa.Value(pc) {
+				nwhole++
+			}
+		}
+		if nwhole == 0 {
+			return pc, fld, true
+		}
+		// the caller's variable is itself a spilled parameter: continue one frame up through any load of that field
+		var found ssa.Value
+		for _, ref := range *pc.Referrers() {
+			if pfa, ok := ref.(*ssa.FieldAddr); ok && fieldOf(pfa) == fld {
+				for _, r2 := range *pfa.Referrers() {
+					if u, ok := r2.(*ssa.UnOp); ok && u.Op == token.MUL {
+						found = u
+					}
+				}
+			}
+		}
+		if found == nil {
+			return nil, nil, false
+		}
+		v, level = found, level-1
+	}
+	return nil, nil, false
+}
+
+// cellFieldStores: the values stored into field fld of a local struct variable (field stores only).
+func cellFieldStores(cell *ssa.Alloc, fld *types.Var) []ssa.Value {
+	var out []ssa.Value
+	for _, ref := range *cell.Referrers() {
+		if fa, ok := ref.(*ssa.FieldAddr); ok && fieldOf(fa) == fld {
+			for _, r2 := range *fa.Referrers() {
+				if st, ok := r2.(*ssa.Store); ok && st.Addr == ssa.Value(fa) {
+					out = append(out, st.Val)
+				}
+			}
+		}
+	}
+	return out
 }
